@@ -554,6 +554,10 @@ def run(tier, seed=0):
     check_resize_condition(prog, res, ne)
     check_high_level_blobs(prog, res, ne)
     check_state_within_keep(prog, res, ne, sizes)
+    from . import c07fx
+    c07fx.check_fixed_extent(res, "w64", 2400)
+    if tier == "thorough":
+        c07fx.check_fixed_extent(res, "w32", 2400)
     from . import c15
     c15.check_who_may_free(prog, res)
     for i in res.instances:
